@@ -312,3 +312,86 @@ Proof.
         destruct h as [|[t s] rest]; [discriminate H2|]. apply andb_true_iff in H2. destruct H2 as [A _].
         exists t, s, rest. split; [reflexivity|apply Qeq_bool_iff; exact A].
 Qed.
+
+(* ---------------- the default start node with initial_recovereds given ---------------- *)
+(* (repaired code, /repo 0a3e1b4) initial_infecteds None, rho None, initial_recovereds given:
+   ONE node is drawn from [node for node in G if node not in initial_recovereds] *)
+Lemma sample_pop_spec : forall g r0 u, In u (sample_pop g (Some r0)) <-> In u (gnodes g) /\ ~ In u r0.
+Proof.
+  intros g r0 u. unfold sample_pop. rewrite filter_In. split; intros [A B]; (split; [exact A|]).
+  - apply mem_false_In. apply negb_true_iff. exact B.
+  - apply negb_true_iff. apply mem_false_In. exact B.
+Qed.
+
+Lemma first_of_rotation : forall pop i, (1 <= length pop)%nat ->
+  exists u, concat (firstn 1 (rotate i (map knode pop))) = [u] /\ In u pop.
+Proof.
+  intros pop i Hl. rewrite GillespieP.rotate_map, GillespieP.firstn_map, GillespieP.concat_knode.
+  pose proof (GillespieP.rotate_perm _ i pop) as Hp.
+  destruct (rotate i pop) as [|u t] eqn:E.
+  - apply Permutation_length in Hp. cbn [length] in Hp. lia.
+  - exists u. split; [reflexivity|]. apply (Permutation_in u Hp). left. reflexivity.
+Qed.
+
+Theorem esir_default_start_with_recovereds : forall g prov r0 tmin tmax full fuel o,
+  xlt tmin tmax = true -> provider_ok prov ->
+  reach (fast_nonmarkov fifo g prov None (Some r0) None tmin tmax full fuel) o ->
+  exists u, In u (gnodes g) /\ ~ In u r0 /\
+    ic_sirb (gnodes g) [u] r0 tmin (so_rows (fst o)) (option_map fd_hist (so_full (fst o))) = true.
+Proof.
+  intros g prov r0 tmin tmax full fuel [out cs] Hlt Hprov H. unfold fast_nonmarkov in H. cbn [Z.ltb Z.compare] in H.
+  apply reach_sample_inv in H. destruct H as [Hl [i Hk]]. rewrite map_length in Hl. change (Z.to_nat 1) with 1%nat in Hl, Hk.
+  destruct (first_of_rotation (sample_pop g (Some r0)) i Hl) as [u [Eu Hu]]. rewrite Eu in Hk.
+  apply sample_pop_spec in Hu. destruct Hu as [Hg Hr]. exists u. split; [exact Hg|]. split; [exact Hr|].
+  apply gloop_gsteps in Hk. destruct Hk as [sF [S1 [S2 S3]]].
+  refine (run_starts_as_requested g tmin tmax _ Hprov [u] r0 _ _ _ full sF out cs S1 S2 S3).
+  - constructor; [intros []|constructor].
+  - intros v [<-|[]]. exact Hr.
+  - destruct tmax as [m|]; [exact Hlt|reflexivity].
+Qed.
+
+Lemma sample_pop_all_recovered : forall g r0, (forall u, In u (gnodes g) -> In u r0) -> sample_pop g (Some r0) = [].
+Proof.
+  intros g r0 H. unfold sample_pop. induction (gnodes g) as [|x l IH]; [reflexivity|]. cbn [filter].
+  rewrite (proj2 (mem_true_In x r0) (H x (or_introl eq_refl))). cbn [negb]. apply IH. intros u Hu. apply H. right. exact Hu.
+Qed.
+
+(* every node initially recovered: random.sample([], 1) raises ValueError; nothing is drawn *)
+Theorem esir_default_start_all_recovered : forall tb g prov r0 tmin tmax full fuel ds,
+  (forall u, In u (gnodes g) -> In u r0) ->
+  exec (fast_nonmarkov tb g prov None (Some r0) None tmin tmax full fuel) ds [] = (Err ValueErr, [CSample [] 1]).
+Proof.
+  intros tb g prov r0 tmin tmax full fuel ds H. unfold fast_nonmarkov. cbn [Z.ltb Z.compare].
+  rewrite (sample_pop_all_recovered g r0 H). reflexivity.
+Qed.
+
+Lemma breach_sample_inv : forall A pop n (k : list key -> bsamp A) a, breach (BSample pop n k) a ->
+  (n <= length pop)%nat /\ exists i, breach (k (firstn n (rotate i pop))) a.
+Proof. intros A pop n k a H. inversion H as [| |? ? ? i ? Hl Hk|]; subst. split; [exact Hl|exists i; exact Hk]. Qed.
+
+(* the same on fast_SIR's constant-tau path *)
+Theorem fast_sir_const_default_start_with_recovereds : forall g tau gamma r0 tmin tmax full fuel ds o tr,
+  xlt tmin tmax = true ->
+  bexec (fast_sir_const g tau gamma None (Some r0) None tmin tmax full fuel) ds [] = (Ok o, tr) ->
+  exists u, In u (gnodes g) /\ ~ In u r0 /\
+    ic_sirb (gnodes g) [u] r0 tmin (so_rows (fst o)) (option_map fd_hist (so_full (fst o))) = true.
+Proof.
+  intros g tau gamma r0 tmin tmax full fuel ds [out cs] tr Hlt H. apply bexec_breach in H.
+  unfold fast_sir_const in H. cbn [Z.ltb Z.compare] in H.
+  apply breach_sample_inv in H. destruct H as [Hl [i Hk]]. rewrite map_length in Hl. change (Z.to_nat 1) with 1%nat in Hl, Hk.
+  destruct (first_of_rotation (sample_pop g (Some r0)) i Hl) as [u [Eu Hu]]. rewrite Eu in Hk.
+  apply sample_pop_spec in Hu. destruct Hu as [Hg Hr]. exists u. split; [exact Hg|]. split; [exact Hr|].
+  apply bgloop_gsteps in Hk. destruct Hk as [sF [S1 [S2 S3]]].
+  refine (run_starts_as_requested g tmin tmax _ (const_provider_ok g tau gamma) [u] r0 _ _ _ full sF out cs S1 S2 S3).
+  - constructor; [intros []|constructor].
+  - intros v [<-|[]]. exact Hr.
+  - destruct tmax as [m|]; [exact Hlt|reflexivity].
+Qed.
+
+Theorem fast_sir_const_default_start_all_recovered : forall g tau gamma r0 tmin tmax full fuel ds,
+  (forall u, In u (gnodes g) -> In u r0) ->
+  bexec (fast_sir_const g tau gamma None (Some r0) None tmin tmax full fuel) ds [] = (Err ValueErr, [BCSample [] 1]).
+Proof.
+  intros g tau gamma r0 tmin tmax full fuel ds H. unfold fast_sir_const. cbn [Z.ltb Z.compare].
+  rewrite (sample_pop_all_recovered g r0 H). reflexivity.
+Qed.
